@@ -61,7 +61,7 @@ def quantifier(facts, t, mapping):
     return (call[2][0], cb, m, pol)
 
 
-def pair_truth(facts, cb, m, own_side, vf):
+def pair_truth(facts, cb, m, own_side, vf, acc=None):
     """Truth of the inner predicate for each ordering of (own clock, other clock)."""
     cit = interp(facts, cb)
     seen = []
@@ -75,7 +75,7 @@ def pair_truth(facts, cb, m, own_side, vf):
         return ('pair', 'fwd' if ia == own_side else 'rev')
     truth = {}
     for o in PARTIAL:
-        truth[o] = Evaluator(facts, classify=classify, assumption={'pair': o}).ev(cit.ret)
+        truth[o] = closure_value(facts, cb, classify=classify, assumption={'pair': o}, acc=acc)
     return truth, bool(seen)
 
 
@@ -108,13 +108,15 @@ def mrg_mvreg(ctx):
                 problems.append('the quantifier does not range over all values of the other side')
                 return None
             ctx.analysed.add(q['cb'].key)
-            truth, hit = pair_truth(facts, q['cb'], q['m'], 1, vf)
+            truth, hit = pair_truth(facts, q['cb'], q['m'], 1, vf, q.get('acc'))
             if not hit or any(v is None for v in truth.values()):
                 problems.append('inner predicate is not a comparison of an own clock with an other clock')
                 return None
             key = versionless(subst(t, mapping) if mapping else t)
             if key not in atoms:
-                atoms[key] = ('q%d' % len(atoms), {o: (truth[o] != q['neg']) for o in PARTIAL})
+                tab = {o: (truth[o] != q['neg']) for o in PARTIAL}
+                tab['empty'] = (q['kind'] == 'forall') != q['neg']
+                atoms[key] = ('q%d' % len(atoms), tab)
             return atoms[key][0]
         return atoms, bool_atom
 
@@ -144,12 +146,15 @@ def mrg_mvreg(ctx):
             ctx.analysed.add(cb.key)
             problems = []
             atoms, ba = q_atoms(side, mapping, problems)
-            Evaluator(facts, bool_atom=ba).ev(cit.ret)
+            closure_value(facts, cb, bool_atom=ba)
             keep = {}
             for o in PARTIAL:
-                keep[o] = Evaluator(facts, bool_atom=ba, assumption={n: tb[o] for n, tb in atoms.values()}).ev(cit.ret)
+                keep[o] = closure_value(facts, cb, bool_atom=ba, assumption={n: tb[o] for n, tb in atoms.values()})
             if not atoms or any(v is None for v in keep.values()):
                 ctx.shape('filter@%d' % c.line, cb, (problems[0] if problems else 'dominance filter is not a recognised combination of quantifiers over the other side (%s)' % fmt(cit.ret, 5)), line=cb.line)
+                continue
+            if closure_value(facts, cb, bool_atom=ba, assumption={n: tb['empty'] for n, tb in atoms.values()}) is not True:
+                ctx.fail('filter@%d' % c.line, cb, 'a value is dropped although the other side holds no value at all (universal / existential mix-up)', line=cb.line)
                 continue
             record(side, keep, cb, cb.line)
     # loop form: a loop over one side that keeps (pushes into a collection that ends up in self.vals) or drops each item
@@ -280,7 +285,7 @@ def mv_evict(ctx):
                     rc = Reach(facts, cb, evr)
                     res[o] = (any(b in rc.reachable for b, _ in keep), any(b in rc.reachable for b, _ in drop))
                 else:
-                    v = evr.ev(cit.ret)
+                    v = closure_value(facts, cb, classify=classify, assumption={'ev': o})
                     res[o] = (v is not False, v is not True)
             det = {'ord(existing clock, put clock) -> (keep may, drop may)': res}
             done = True
@@ -367,13 +372,14 @@ def mv_ignore(ctx):
                     seen_.append(1)
                     return ('dom', orient)
             return None
-        cret = interp(facts, q['cb']).ret
-        tb = {o: Evaluator(facts, classify=cq, assumption={'dom': o}).ev(cret) for o in PARTIAL}
+        tb = {o: closure_value(facts, q['cb'], classify=cq, assumption={'dom': o}, acc=q.get('acc')) for o in PARTIAL}
         if not seen_ or any(v is None for v in tb.values()):
             return None
         key = versionless(t)
         if key not in qatoms:
-            qatoms[key] = ('q%d' % len(qatoms), {o: (tb[o] != q['neg']) for o in PARTIAL})
+            tab = {o: (tb[o] != q['neg']) for o in PARTIAL}
+            tab['empty'] = (q['kind'] == 'forall') != q['neg']     # no stored value at all: `all` holds, `any` does not
+            qatoms[key] = ('q%d' % len(qatoms), tab)
         return qatoms[key][0]
     Reach(facts, body, Evaluator(facts, bool_atom=qatom))
     if qatoms or qprob:
@@ -389,6 +395,9 @@ def mv_ignore(ctx):
             bad = [o for o in (LT, EQ, NONE) if not res[o][0]]
             if bad:
                 errs.append('a Put that is not dominated (%s) is ignored' % bad)
+            rc_e = Reach(facts, body, Evaluator(facts, bool_atom=qatom, assumption={n: tb['empty'] for n, tb in qatoms.values()}))
+            if pb not in rc_e.reachable:
+                errs.append('a Put into an empty register is ignored (the scan is a universal where an existential is needed)')
         ctx.check(not errs, 'push', body, 'Put stored iff no existing clock > Put clock (quantifier form)', errs[0] if errs else '',
                   line=line, details={'ord(existing clock, put clock) -> (store may, must)': res})
         return
@@ -588,6 +597,20 @@ def _join_loop_form(facts, t, vf, body):
 
 def _join_of_vals(facts, t, vf, body=None):
     """t == fold over all of self.vals joining every value clock."""
+    # a field of the ReadCtx another read of self returns (`let ReadCtx { add_clock, .. } = self.read_ctx()`): look inside
+    from ..ordset import local_summary
+    from ..interp import proj
+    for _ in range(4):
+        x = t
+        while x[0] in ('lv', 'at'):
+            x = x[3] if x[0] == 'lv' else x[2]
+        if x[0] == 'field' and x[1][0] == 'call' and cinfo(x[1][1])['local'] and len(x[1][2]) == 1 and param_path(x[1][2][0]) == (1, ()):
+            sm = local_summary(facts, x[1])
+            if sm is None:
+                break
+            t = proj(drop_lv(sm), x[2])
+            continue
+        break
     if body is not None and _join_loop_form(facts, t, vf, body):
         return True
     t = expand_all(facts, t, stop=())
